@@ -279,6 +279,10 @@ class FakeSnowflakeCursor:
         elif set_schema := transformed.args.get("set_schema"):
             self._conn.schema = set_schema
             self._conn.schema_set = True
+            if set_schema_database := transformed.args.get("set_schema_database"):
+                # USE SCHEMA <database>.<schema>
+                self._conn.database = set_schema_database
+                self._conn.database_set = True
 
         elif create_db_name := transformed.args.get("create_db_name"):
             # we created a new database, so create the info schema extensions
